@@ -41,14 +41,85 @@ def par_run(exe, lines, env=None, timeout=1500):
     return outs, crashes
 
 
-ORACLE = re.compile(r" oracle=(\S+)$")
+ORACLE = re.compile(r"(?: blocks=(\S+))? oracle=(\S+)$")
 
 
 def split_oracle(c_out):
+    """-> (what the model prints too, the driver's own verdict | None)"""
     m = ORACLE.search(c_out)
     if not m:
         return c_out, None
-    return c_out[:m.start()], m.group(1)
+    return c_out[:m.start()], m.group(2)
+
+
+def blocks_of(c_out):
+    m = ORACLE.search(c_out)
+    return [int(x) for x in m.group(1).split(",")] if m and m.group(1) else []
+
+
+UNESC = set(b"ABCDEFGHIJKLMNOPQRSTUVWXYZabcdefghijklmnopqrstuvwxyz0123456789-._~!$'()*+,;=:@/?")
+
+
+def escape_query(q):
+    return b"".join(bytes([c]) if c in UNESC else b"%%%02X" % c for c in q)
+
+
+def parse_get(line):
+    """get <mode> {ops} F <q> {B szx}* -> (mode, ops, q|None, [szx])"""
+    t = line.split()
+    mode = int(t[1])
+    _, _, ops, q, _ = parse_case("wk " + " ".join(t[2:]))
+    szx = [int(t[i + 1]) for i in range(len(t) - 1) if t[i] == "B"]
+    return mode, ops, q, szx
+
+
+def get_oracle(line, c_out):
+    """GET through the server: every reassembled body is the listing restricted by the query,
+    blocks have the requested size -> None | reason"""
+    mode, ops, q, szxs = parse_get(line)
+    want = gen_link.py_listing(ops, q)
+    body, orc = split_oracle(c_out)
+    if not body.startswith("205 "):
+        return "response " + c_out[:60]
+    if orc != "ok":
+        return "block check failed in the driver: %s" % orc
+    fs = body.split()
+    got = [b"" if fs[1] == "-" else bytes.fromhex(fs[1])]
+    for f in fs[2:]:
+        v = f.split("=", 1)[1]
+        if v.startswith("CODE") or v == "NONE":
+            return "block-wise GET answered with " + v
+        got.append(b"" if v == "-" else bytes.fromhex(v))
+    for k, g in enumerate(got):
+        if g != want:
+            how = "GET without Block2" if k == 0 else "block-wise GET with szx %d" % szxs[k - 1]
+            return "%s delivers %d bytes %r.., the listing has %d bytes %r.." % (how, len(g), g[:40], len(want), want[:40])
+    if mode & 1:
+        bl = blocks_of(c_out)
+        exp = [max(1, -(-len(want) // 1024))] + [max(1, -(-len(want) // (16 << z))) for z in szxs]
+        if bl != exp:
+            return "number of blocks %s, expected %s" % (bl, exp)
+    return None
+
+
+def get_known(run, line, c_out):
+    """does a failing GET case match an open finding? -> finding | None"""
+    mode, ops, q, szxs = parse_get(line)
+    body, orc = split_oracle(c_out)
+    fs = body.split()
+    if len(fs) < 2 or fs[0] != "205" or orc != "ok":
+        return None
+    got = [b"" if f.split("=")[-1] == "-" else bytes.fromhex(f.split("=")[-1]) for f in fs[1:]]
+    want = gen_link.py_listing(ops, q)
+
+    def sig(kind):
+        return run.match_known(lambda f: f.get("signature", {}).get("kind") == kind)
+    if q is not None and any(c not in UNESC for c in q) and \
+            all(g == gen_link.py_listing(ops, escape_query(q)) for g in got):
+        return sig("escaped-query")
+    if not (mode & 1) and len(want) > 1000 and all(len(g) < len(want) and want.startswith(g) and len(g) > 1000 for g in got):
+        return sig("no-block-mode-truncation")
+    return None
 
 
 def parse_case(line):
@@ -102,6 +173,8 @@ def impl_oracle(line, c_out):
     if c_out.startswith("CRASH") or c_out.startswith("<not run>"):
         return "driver crashed: " + c_out
     cmd = line.split()[0]
+    if cmd == "get":
+        return get_oracle(line, c_out)
     if cmd not in ("wk", "lk"):
         return None
     want = expected_full(line)
@@ -199,8 +272,8 @@ def shrink_case(model, drv, line, bad):
 def gen_cases(run, r):
     quick = run.tier == "quick"
     lines, kinds = [], []
-    ntab = 70 if quick else 900
-    nfil = 9 if quick else 14
+    ntab = 160 if quick else 1500
+    nfil = 10 if quick else 14
     all_limit = 170 if quick else 330
     for ti in range(ntab):
         ops = gen_link.gen_table(r)
@@ -217,6 +290,27 @@ def gen_cases(run, r):
             else:
                 lines.append(gen_link.case_line("wk", ops, q, gen_link.boundary_windows(r, ops, q)))
             kinds.append(kind)
+        # GET /.well-known/core through a server endpoint, with and without block mode
+        for k in range(2 if quick else 4):
+            kind, q = gen_link.gen_filter(r, ops) if k else ("none", None)
+            if q is not None and len(q) > 200:
+                continue
+            if q == b"":
+                q = None      # coap_pdu_parse rejects an empty Uri-Query option (C03's limit table)
+            L = len(gen_link.py_listing(ops, q))
+            mode = 1 if (k % 2 == 0 or L > 900) else 0
+            if k and q is not None and r.random() < 0.5:
+                # a filter that survives coap_get_query unchanged (F20c is exercised by the others)
+                q = bytes(c for c in q if c in UNESC) or None
+            szx = [z for z in range(7) if L <= 600 or z >= 2]
+            # an application resource registered under .well-known/core takes the request itself
+            # (the built-in handler is not called): not part of the GET cases
+            gops = [o for o in ops if o[1] != gen_link.WK]
+            t = ["get", str(mode)] + gen_link.ops_tokens(gops) + ["F", "~" if q is None else gen_link.tok(q)]
+            for z in szx:
+                t += ["B", str(z)]
+            lines.append(" ".join(t))
+            kinds.append("get-" + kind)
         # single links through coap_print_link
         for k in range(min(len(tbl), 2 if quick else 4)):
             i = r.randrange(len(tbl))
@@ -260,7 +354,7 @@ def main(run):
     san_lines = []
     if True:
         for ln, k in zip(lines, kinds):
-            if k in ("const", "link"):
+            if k in ("const", "link") or ln.startswith("get "):
                 continue
             cmd, lk, ops, q, wins = parse_case(ln)
             if q is None:
@@ -278,11 +372,16 @@ def main(run):
         for (i, rc, err) in san_crashes:
             nb += 1
             if nb <= 2:
+                # vlib keeps only the tail of stderr: run the case once more for the full report
+                try:
+                    _, _, err = vlib.run_lines(asan, [], [san_lines[i]], timeout=120, env=env)
+                except Exception:
+                    pass
                 m = re.search(r"ERROR: AddressSanitizer: (\S+).*?\n((?:\s+#\d+ .*\n){1,6})", err)
                 what = "sanitizer trap (%s) in %s" % (m.group(1) if m else "rc=%d" % rc,
                                                      " <- ".join(re.findall(r" in (\S+) ", m.group(2))[:4]) if m else "?")
                 run.violation("memory error while listing: " + what,
-                              "case: %s\nvariant: asan (clang -fsanitize=address,undefined)\n%s\n" % (san_lines[i], err[-3000:]),
+                              "case: %s\nvariant: asan (clang -fsanitize=address,undefined)\n%s\n" % (san_lines[i], err[:6000]),
                               tag="asan%d" % nb)
         for i, ln in enumerate(san_lines):
             if osan[i].startswith("CRASH") or osan[i].startswith("<not run>"):
@@ -307,6 +406,33 @@ def main(run):
             if mo != co:
                 run.violation("constants of the model differ from the headers: model %s, code %s" % (mo, co),
                               "case: lfconst\nmodel: %s\nimpl: %s\n" % (mo, co), tag="const", no_input=True)
+            continue
+        if ln.startswith("get "):
+            mode, ops, q, szxs = parse_get(ln)
+            tbl = gen_link.table_of_ops(ops)
+            want = gen_link.py_listing(ops, q)
+            run.count(ln, want.count(b"</") >= 2 and len(szxs) >= 3)
+            run.hist("get_mode", mode)
+            run.hist("get_listing_bytes", "0" if not want else "<=16" if len(want) <= 16 else "<=64" if len(want) <= 64 else "<=1024" if len(want) <= 1024 else ">1024")
+            why = get_oracle(ln, co)
+            if i % 41 == 3:
+                run.sample({"case": ln[:300], "impl": co[:160], "listing": want.decode("latin-1")[:120]})
+            if why is None and mo == body:
+                continue
+            kf = get_known(run, ln, co) if why else None
+            if kf is not None and (mo == body or not (mode & 1)):
+                run.known(kf, "case: " + ln[:160])
+                run.hist("known_finding", kf["id"])
+                continue
+            nbad += 1
+            if nbad <= 3:
+                txt = ("case: %s\nquery option: %r\nexpected listing: %r\nmodel (proved): %s\nimpl: %s\n"
+                       "oracle on the implementation: %s\n" % (ln, q, want, mo, co, why or "ok"))
+                if why:
+                    run.violation("GET /.well-known/core violates the property (%s): %s" % (k, why), txt, tag="get%d" % nbad)
+                else:
+                    run.violation("model and implementation disagree on the GET path (%s), oracle holds" % k,
+                                  txt, tag="gettie%d" % nbad, no_input=True)
             continue
         cmd, lk, ops, q, wins = parse_case(ln)
         tbl = gen_link.table_of_ops(ops)
